@@ -72,6 +72,8 @@ pub struct HelloCase {
     /// element, 2 text, 3 a stray end tag, 4 a second complete `<hello>`, 5 an `<rpc-reply>`,
     /// 6 a comment (the only one that leaves the message a well-formed document)
     pub after: u8,
+    /// a second `<capabilities>` element (with only base:1.0) after the first
+    pub caps2: bool,
 }
 
 impl HelloCase {
@@ -129,6 +131,11 @@ impl HelloCase {
             s.push_str("<!-- a -->");
         }
         let caps = if self.no_caps { String::new() } else { caps };
+        let caps = if self.caps2 {
+            format!("{caps}<{p}capabilities><{p}capability>{}</{p}capability></{p}capabilities>", mt::CAP_BASE10)
+        } else {
+            caps
+        };
         if self.sid_first {
             s.push_str(&sid);
             if self.comments & 2 != 0 {
@@ -179,7 +186,8 @@ impl HelloCase {
             // an element of a foreign namespace is not the NETCONF element of that name
             && self.foreign == 0
             // anything but a comment after the root element: not a well-formed document
-            && matches!(self.after, 0 | 6);
+            && matches!(self.after, 0 | 6)
+            && !self.caps2;
         // a capability text with a reference that cannot be resolved is not a well-formed hello
         let uris_ok = self
             .extra
@@ -276,6 +284,7 @@ pub fn gen(opts: &Opts, rng: &mut Rng) -> Vec<HelloCase> {
                     no_caps: false,
                     trailer: true,
                     after: 0,
+                    caps2: false,
                 });
             }
         }
@@ -305,6 +314,7 @@ pub fn gen(opts: &Opts, rng: &mut Rng) -> Vec<HelloCase> {
                     no_caps: false,
                     trailer: v != 2,
                     after: 0,
+                    caps2: false,
                 });
             }
         }
@@ -328,6 +338,7 @@ pub fn gen(opts: &Opts, rng: &mut Rng) -> Vec<HelloCase> {
                     no_caps: false,
                     trailer: true,
                     after: 0,
+                    caps2: false,
                 });
             }
         }
@@ -352,8 +363,33 @@ pub fn gen(opts: &Opts, rng: &mut Rng) -> Vec<HelloCase> {
                         no_caps: false,
                         trailer: true,
                         after: 0,
+                        caps2: false,
                     });
                 }
+            }
+        }
+    }
+    // two <capabilities> elements: whichever the reader would keep, the hello is not of the grammar
+    for b in &base_sets {
+        for prefix in [false, true] {
+            for sid_first in [false, true] {
+                out.push(HelloCase {
+                    bases: b.clone(),
+                    extra: vec!["urn:ietf:params:netconf:capability:candidate:1.0".into()],
+                    sid: Some("7".into()),
+                    sid_dup: false,
+                    sid2: None,
+                    foreign: 0,
+                    prefix,
+                    sid_first,
+                    comments: 0,
+                    decl: false,
+                    junk: false,
+                    no_caps: false,
+                    trailer: true,
+                    after: 0,
+                    caps2: true,
+                });
             }
         }
     }
@@ -377,6 +413,7 @@ pub fn gen(opts: &Opts, rng: &mut Rng) -> Vec<HelloCase> {
                         no_caps: false,
                         trailer,
                         after,
+                        caps2: false,
                     });
                 }
             }
@@ -407,6 +444,7 @@ pub fn gen(opts: &Opts, rng: &mut Rng) -> Vec<HelloCase> {
             no_caps: rng.chance(1, 15),
             trailer: rng.chance(4, 5),
             after: if rng.chance(1, 10) { 1 + rng.below(6) as u8 } else { 0 },
+            caps2: rng.chance(1, 12),
         });
     }
     out
